@@ -45,6 +45,9 @@ def run(tier):
     nf, cf = fc.judge(chk, wd, "c05", "C05", ("wasm32", "ilp64", "lp16"))
     nf2, cf2 = fc.judge(chk, wd, "c03", "C05", ("wasm32", "ilp64", "lp16"))      # ... and so does the pointer
     nf, cf = nf + nf2, cf | cf2
+    # the same refusals in the library's DEFAULT failure configuration (no exceptions, no custom handler): the process ends
+    import abortcommon
+    abortcommon.judge(chk, wd, "C05")
     chk.count(evaluations=len(events) + nf, distinct=len(combos) + len(cf), traces=1)
     chk.cov["exhaustive"] = True
     chk.cov["exhaustive_scope"] = "8/16-bit operands exhaustively (run-summarised) for + - += -= [] &[] on 11 pointee kinds " \
